@@ -7,7 +7,10 @@
 #include <carquet/carquet.h>
 
 enum { MAXC = 18, MAXSTEP = 320 };
-typedef struct { char name[16]; int rep, ptype, tlen; } fcol;
+/* has_lt = 0: carquet_schema_add_column gets a NULL logical_type pointer; otherwise a carquet_logical_type_t with id lt_id and,
+ * for the ids that have members in the params union, lt_p1 / lt_p2 (DECIMAL precision / scale, INTEGER bit_width / is_signed,
+ * TIME and TIMESTAMP unit / is_adjusted_to_utc) — the notation `id:p1:p2` of the apibuild lines */
+typedef struct { char name[16]; int rep, ptype, tlen; int has_lt, lt_id; long long lt_p1, lt_p2; } fcol;
 typedef struct {
     int kind;            /* 0 batch, 1 new row group */
     int col; int nrows; int has_defs; uint8_t* defs;   /* defs[i] in {0,1} */
@@ -32,7 +35,11 @@ __attribute__((unused)) static void free_case(fcase* fc) {
 __attribute__((unused)) static void print_case(hctx* h, const fcase* fc) {
     fprintf(h->out, "wr cols=");
     for (int i = 0; i < fc->ncols; i++)
-        fprintf(h->out, "%s%s.%d.%d.%d", i ? "," : "", fc->cols[i].name, fc->cols[i].rep, fc->cols[i].ptype, fc->cols[i].tlen);
+    {   fprintf(h->out, "%s%s.%d.%d.%d", i ? "," : "", fc->cols[i].name, fc->cols[i].rep, fc->cols[i].ptype, fc->cols[i].tlen);
+        /* optional fifth field: the logical type the column is created with (absent = NULL pointer, as in every line
+         * written before logical types were generated) */
+        if (fc->cols[i].has_lt) fprintf(h->out, ".%d:%lld:%lld", fc->cols[i].lt_id, fc->cols[i].lt_p1, fc->cols[i].lt_p2);
+    }
     fprintf(h->out, " codec=%d page=%ld ns=%d", fc->codec, fc->page, fc->nsteps);
     for (int i = 0; i < fc->nsteps; i++) {
         const fstep* s = &fc->steps[i];
@@ -76,14 +83,53 @@ __attribute__((unused)) static int16_t* batch_reps(const fstep* s) {
     return r;
 }
 
+/* the logical_type argument of a column: NULL, or an exact-size heap struct whose union holds garbage except for the members
+ * that belong to the id */
+__attribute__((unused)) static carquet_logical_type_t* col_logical(const fcol* c) {
+    if (!c->has_lt) return NULL;
+    carquet_logical_type_t* lt = (carquet_logical_type_t*)h_alloc(sizeof *lt);
+    memset(lt, 0xA5, sizeof *lt);
+    lt->id = (carquet_logical_type_id_t)c->lt_id;
+    switch (lt->id) {
+    case CARQUET_LOGICAL_DECIMAL: lt->params.decimal.precision = (int32_t)c->lt_p1; lt->params.decimal.scale = (int32_t)c->lt_p2; break;
+    case CARQUET_LOGICAL_INTEGER: lt->params.integer.bit_width = (int8_t)c->lt_p1; lt->params.integer.is_signed = c->lt_p2 != 0; break;
+    case CARQUET_LOGICAL_TIME: lt->params.time.unit = (carquet_time_unit_t)c->lt_p1; lt->params.time.is_adjusted_to_utc = c->lt_p2 != 0; break;
+    case CARQUET_LOGICAL_TIMESTAMP: lt->params.timestamp.unit = (carquet_time_unit_t)c->lt_p1; lt->params.timestamp.is_adjusted_to_utc = c->lt_p2 != 0; break;
+    default: break;
+    }
+    return lt;
+}
+
+/* `N` or `id:p1:p2` of what carquet_schema_node_logical_type returns (the members of the params union that belong to the id) */
+__attribute__((unused)) static void print_logical(FILE* f, const carquet_logical_type_t* lt) {
+    if (!lt) { fputc('N', f); return; }
+    long long p1 = 0, p2 = 0;
+    switch (lt->id) {
+    case CARQUET_LOGICAL_DECIMAL: p1 = lt->params.decimal.precision; p2 = lt->params.decimal.scale; break;
+    case CARQUET_LOGICAL_INTEGER: p1 = lt->params.integer.bit_width; p2 = lt->params.integer.is_signed ? 1 : 0; break;
+    case CARQUET_LOGICAL_TIME: p1 = (int)lt->params.time.unit; p2 = lt->params.time.is_adjusted_to_utc ? 1 : 0; break;
+    case CARQUET_LOGICAL_TIMESTAMP: p1 = (int)lt->params.timestamp.unit; p2 = lt->params.timestamp.is_adjusted_to_utc ? 1 : 0; break;
+    default: break;
+    }
+    fprintf(f, "%d:%lld:%lld", (int)lt->id, p1, p2);
+}
+
+/* carquet_schema_add_column for one column of a case, with its logical type */
+__attribute__((unused)) static carquet_status_t add_case_column(carquet_schema_t* sc, const fcol* c) {
+    carquet_logical_type_t* lt = col_logical(c);
+    carquet_status_t ast = carquet_schema_add_column(sc, c->name, (carquet_physical_type_t)c->ptype, lt,
+                                                     (carquet_field_repetition_t)c->rep, c->tlen);
+    if (lt) { memset(lt, 0x5A, sizeof *lt); free(lt); }          /* the schema must hold a copy, not the pointer */
+    return ast;
+}
+
 __attribute__((unused)) static int write_file(const fcase* fc, const char* path, int* st, int* nst) {
     carquet_error_t err; memset(&err, 0, sizeof err);
     *nst = 0;
     carquet_schema_t* sc = carquet_schema_create(&err);
     if (!sc) return -1;
     for (int i = 0; i < fc->ncols; i++)
-        if (carquet_schema_add_column(sc, fc->cols[i].name, (carquet_physical_type_t)fc->cols[i].ptype, NULL,
-                                      (carquet_field_repetition_t)fc->cols[i].rep, fc->cols[i].tlen) != CARQUET_OK) { carquet_schema_free(sc); return -1; }
+        if (add_case_column(sc, &fc->cols[i]) != CARQUET_OK) { carquet_schema_free(sc); return -1; }
     carquet_writer_options_t wo; carquet_writer_options_init(&wo);
     wo.compression = (carquet_compression_t)fc->codec; wo.page_size = fc->page;
     /* options the pinned writer documents but does not act on: set to small / unusual values in a third of the cases (a
@@ -127,6 +173,53 @@ __attribute__((unused)) static void gen_value(hctx* h, const fcol* c, uint8_t** 
     else if (h_chance(h, 1, 3)) { uint64_t v = h_below(h, 5); for (int i = 0; i < n; i++) p[i] = i < 8 ? (uint8_t)(v >> (8 * i)) : 0; }
     else for (int i = 0; i < n; i++) p[i] = (uint8_t)h_next(h);
     *out = p; *len = n;
+}
+
+__attribute__((unused)) static void gen_logical(hctx* h, fcol* c) {
+    static const long long ext32[] = { 0, 1, 9, 38, -1, 2147483647LL, -2147483648LL, 127, 128, 255, 256, 16383, 16384 };
+    static const long long ext8[] = { 8, 16, 32, 64, 0, 127, -128, -1 };
+    c->has_lt = 0; c->lt_id = 0; c->lt_p1 = 0; c->lt_p2 = 0;
+    if (!h_chance(h, 1, 3)) return;
+    c->has_lt = 1;
+    if (h_chance(h, 1, 8)) {                                    /* any id, extreme parameters */
+        c->lt_id = (int)h_below(h, 15);
+        switch (c->lt_id) {
+        case 5: c->lt_p1 = ext32[h_below(h, 13)]; c->lt_p2 = ext32[h_below(h, 13)]; break;
+        case 9: c->lt_p1 = ext8[h_below(h, 8)]; c->lt_p2 = (long long)h_below(h, 2); break;
+        case 7: case 8: c->lt_p1 = (long long)h_below(h, 3); c->lt_p2 = (long long)h_below(h, 2); break;
+        default: break;
+        }
+        return;
+    }
+    int maxprec = c->ptype == 1 ? 9 : c->ptype == 2 ? 18 : 38;
+    int pick = (int)h_below(h, 6);
+    int id = 10;                                                /* NULL (UNKNOWN in parquet.thrift): allowed on every type */
+    switch (c->ptype) {
+    case 1: { static const int ids[] = { 5, 6, 7, 9, 9, 10 }; id = ids[pick]; } break;          /* INT32 */
+    case 2: { static const int ids[] = { 5, 7, 8, 8, 9, 10 }; id = ids[pick]; } break;          /* INT64 */
+    case 6: { static const int ids[] = { 1, 4, 5, 11, 12, 1 }; id = ids[pick]; } break;         /* BYTE_ARRAY */
+    case 7: { static const int ids[] = { 5, 5, 13, 14, 5, 10 }; id = ids[pick]; } break;        /* FIXED_LEN_BYTE_ARRAY */
+    default:                                                    /* BOOLEAN, FLOAT, DOUBLE: the format has NULL only */
+        if (h_chance(h, 2, 3)) { c->has_lt = 0; return; }
+        break;
+    }
+    c->lt_id = id;
+    switch (id) {
+    case 5:                                                     /* DECIMAL(precision, scale) */
+        c->lt_p1 = (long long)h_below(h, (uint64_t)maxprec + 1);
+        c->lt_p2 = h_chance(h, 1, 2) ? 0 : (long long)h_below(h, (uint64_t)c->lt_p1 + 1);
+        break;
+    case 7:                                                     /* TIME: millis on INT32, micros / nanos on INT64 */
+        c->lt_p1 = c->ptype == 1 ? 0 : 1 + (long long)h_below(h, 2);
+        c->lt_p2 = (long long)h_below(h, 2);
+        break;
+    case 8: c->lt_p1 = (long long)h_below(h, 3); c->lt_p2 = (long long)h_below(h, 2); break;
+    case 9:                                                     /* INTEGER(width, signed) */
+        c->lt_p1 = c->ptype == 2 ? 64 : (8LL << h_below(h, 3));
+        c->lt_p2 = (long long)h_below(h, 2);
+        break;
+    default: break;
+    }
 }
 
 __attribute__((unused)) static void gen_case(hctx* h, fcase* fc, int small) {
@@ -227,6 +320,13 @@ __attribute__((unused)) static void gen_case(hctx* h, fcase* fc, int small) {
         if (g + 1 < nrg || h_chance(h, 1, 5)) { if (ns < MAXSTEP - 1) { fc->steps[ns].kind = 1; ns++; } }
     }
     fc->nsteps = ns;
+    /* logical types, drawn last (everything above is drawn exactly as before they existed): about a third of the columns are
+     * created with one.  Mostly an annotation the format allows on the column's physical type — every member of the LogicalType
+     * union carquet writes, DECIMAL with scale 0 and every precision the type holds (0 included: carquet does not look at it),
+     * TIME / TIMESTAMP with each unit and UTC flag, INTEGER with each width and sign —; now and then ANY id with extreme
+     * parameters (a non-NULL pointer with id UNKNOWN, MAP / LIST on a leaf, int32 / int8 limits): the writer copies what it is
+     * given, and the file must state exactly that. */
+    for (int i = 0; i < fc->ncols; i++) gen_logical(h, &fc->cols[i]);
 }
 
 /* ---- replay ---- */
@@ -241,6 +341,16 @@ __attribute__((unused)) static int parse_case(const h_line* l, fcase* fc) {
         k->rep = (int)strtol(c, (char**)&c, 10); if (*c == '.') c++;
         k->ptype = (int)strtol(c, (char**)&c, 10); if (*c == '.') c++;
         k->tlen = (int)strtol(c, (char**)&c, 10);
+        if (*c == '.') {                                        /* fifth field: N, or id:p1:p2 */
+            c++;
+            if (*c == 'N') c++;
+            else {
+                k->has_lt = 1;
+                k->lt_id = (int)strtol(c, (char**)&c, 10); if (*c == ':') c++;
+                k->lt_p1 = strtoll(c, (char**)&c, 10); if (*c == ':') c++;
+                k->lt_p2 = strtoll(c, (char**)&c, 10);
+            }
+        }
         if (*c == ',') c++;
     }
     fc->codec = (int)h_ll(h_in(l, "codec")); fc->page = (long)h_ll(h_in(l, "page"));
